@@ -28,6 +28,8 @@ def gen_node(rng, depth, leafy=0.4, allow_ns=True):
     r = rng.random()
     if depth <= 0 or r < leafy:
         r2 = rng.random()
+        if r2 < 0.06:
+            return ['t', rng.choice(['<i>m</i>', 'safe t', '&amp;']), True]     # a Markup instance
         if r2 < 0.75:
             return ['t', rng.choice(TEXTS)]
         if r2 < 0.9:
@@ -38,6 +40,8 @@ def gen_node(rng, depth, leafy=0.4, allow_ns=True):
     attrs = []
     for a in rng.sample(ATTRS, rng.choice([0, 0, 1, 1, 2, 3])):
         attrs.append([['', a], rng.choice(VALS)])
+    if allow_ns and rng.random() < 0.05:
+        attrs.append([[NS, rng.choice(ATTRS)], rng.choice(VALS)])
     kids = gen_kids(rng, depth - 1, rng.choice([0, 1, 2, 2, 3, 4]), leafy, allow_ns)
     return ['e', [ns, tag], attrs, kids]
 
@@ -74,7 +78,7 @@ def flatten(nodes, out=None):
             flatten(n[3], out)
             out.append(['E', list(n[1])])
         elif k == 't':
-            out.append(['T', n[1], False])
+            out.append(['T', n[1], len(n) > 2 and bool(n[2])])
         elif k == 'c':
             out.append(['C', n[1]])
         elif k == 'p':
@@ -111,7 +115,7 @@ def to_tree(events):
                 return None
             stack.pop()
         elif k == 'T':
-            stack[-1][1].append(['t', e[1]])
+            stack[-1][1].append(['t', e[1], True] if len(e) > 2 and e[2] else ['t', e[1]])
         elif k == 'C':
             stack[-1][1].append(['c', e[1]])
         elif k == 'PI':
